@@ -515,6 +515,45 @@ theorem C10_loaded_set_exact_code (es : List Entry) (inv : Bytes → List Bytes)
         known es x = true ∧ ∃ id ∈ ids, known es id = true ∧ (x = id ∨ Reach (Step es (candsOf es inv)) id x) :=
   C10_loaded_set_exact es (candsOf es inv) (fun l => l) (candsOf_known es inv) (candsOf_unknown es inv) (fun _ _ => Iff.rfl) ids fuel hf
 
+/-- a candidate referrer `lazyRefs` loads is an indexed instance that mentions the instance and whose keyword is one of the candidate
+    keywords of the instance's own keyword -/
+theorem candsOf_mem (es : List Entry) (inv : Bytes → List Bytes) (x r : Nat) (h : r ∈ candsOf es inv x) :
+    ∃ ex ∈ es, ex.id = x ∧ ∃ e ∈ es, e.id = r ∧ x ∈ e.refs ∧ e.kw ∈ inv ex.kw := by
+  unfold candsOf at h
+  cases hf : es.find? (fun e => e.id == x) with
+  | none => simp [hf] at h
+  | some ex =>
+    simp only [hf, List.mem_eraseDups, List.mem_map, List.mem_filter, Bool.and_eq_true, List.contains_iff_mem] at h
+    obtain ⟨e, ⟨he, h1, h2⟩, hid⟩ := h
+    exact ⟨ex, List.mem_of_find?_eq_some hf, by simpa using List.find?_some hf, e, he, hid, h1, h2⟩
+
+/-- **an instance indexed under the empty keyword is never a candidate referrer** — and externally mapped instances are indexed under
+    the empty keyword (`C10_index_equals_eager_mixed_partial`): whatever inverse attributes the schema declares (no entity has the empty
+    name), `lazyRefs` never loads an externally mapped instance as a referrer of another instance.  This is, at the loader's level, the
+    root of C11's kept finding `complex-referrer`, and it bounds the loaded set of `C10_loaded_set_exact_code` from above -/
+theorem C10_complex_instance_never_candidate (es : List Entry) (inv : Bytes → List Bytes) (hinv : ∀ k, [] ∉ inv k)
+    (hid : (es.map (·.id)).Nodup) (x r : Nat) (h : r ∈ candsOf es inv x) :
+    ∀ e ∈ es, e.id = r → e.kw ≠ [] := by
+  obtain ⟨ex, _, _, e0, he0, hr0, _, hk⟩ := candsOf_mem es inv x r h
+  intro e he hr hkw
+  have : e = e0 := by
+    have hnd : ∀ (l : List Entry), (l.map (·.id)).Nodup → ∀ a ∈ l, ∀ b ∈ l, a.id = b.id → a = b := by
+      intro l
+      induction l with
+      | nil => intro _ a ha; cases ha
+      | cons h0 t ih =>
+        intro hd a ha b hb hab
+        simp only [List.map_cons, List.nodup_cons, List.mem_map, not_exists, not_and] at hd
+        rcases List.mem_cons.mp ha with ha1 | ha1 <;> rcases List.mem_cons.mp hb with hb1 | hb1
+        · rw [ha1, hb1]
+        · rw [ha1] at hab; exact absurd hab.symm (hd.1 b hb1)
+        · rw [hb1] at hab; exact absurd hab (hd.1 a ha1)
+        · exact ih hd.2 a ha1 b hb1 hab
+    exact hnd es hid e he e0 he0 (by rw [hr, hr0])
+  rw [this] at hkw
+  rw [hkw] at hk
+  exact hinv _ hk
+
 /-- … in particular the loaded set **contains** the dependency closure of every requested instance -/
 theorem C10_load_contains_deps (es : List Entry) (cands : Nat → List Nat) (ord : List Nat → List Nat)
     (hk : ∀ x r, r ∈ cands x → known es r = true) (hks : ∀ x, known es x = false → cands x = [])
